@@ -1,11 +1,16 @@
 """Shared by C12 (gate) and C13 (binding by name): case construction, the runner for the real `@validate`, the judge.
 
-A case is one decorated function + one call.
+A case is one decorated function + one call, or a *scenario* ('c' = {'calls': [<c of one call>, ...]}): one or two decorated
+function objects (sharing Parameter objects) and a history of calls, some of them made by a validator of another call while that
+call is still running (re-entrancy); 'x'['scn'] says which call uses which function object and which validator invocation
+(parent call, parameter name, validator index, value received) makes which inner call.  Every call of a scenario is judged
+like a single call: the model answers for each call on its own (`call_outcome_independent_of_other_calls`).
  'c' (what the Lean driver gets):
    ps      [{name, required, dflt, ext, conv, vals, flaskJson}]   the Parameters in declaration order
              dflt/ext: "NOVALUE" | null (None) | value id;   conv: null | [[in id, out id | "REJ"], ...] (value_type given)
              vals: [{rej: [ids], crash: [ids], map: "mul"|"same"|"none"|"const", k}]   recording validators
-   sig     {pos: [{name, dflt}], varArgs, kwOnly: [{name, dflt}]}     (`self` is pos[0] for methods)
+   sig     {pos: [{name, dflt}], varArgs, kwOnly: [{name, dflt}], varName, tup}     (`self` is pos[0] for methods; varName = name of
+             the VAR_POSITIONAL parameter (absent: `args`); tup = id of the tuple object bind_partial builds from the surplus positionals)
    strict, ignore, req ("none" | "notjson" | [json keys]), async, mode, args [ids] (incl. the instance for methods), kw [[name, id]]
  'x' (only the Python side): method, per-parameter kind / value_type / raw source value, literal values {id: repr}.
 Names are small ints (index into NAMES); values are ints: None = null, 1..7 the falsy literals, 90 the instance,
@@ -14,7 +19,7 @@ the exact sequence of validators it went through).
 """
 import ast, os, sys, io, itertools, tempfile, shutil, importlib.util, contextlib
 
-NAMES = ['self', 'args', 'a', 'b', 'c', 'd', 'zz', 'yy']
+NAMES = ['self', 'args', 'a', 'b', 'c', 'd', 'zz', 'yy', 'kwargs', 'cls', 'rest']
 NID = {n: i for i, n in enumerate(NAMES)}
 NOV = 'NOVALUE'
 SELF_ID = 90
@@ -188,9 +193,14 @@ def assemble(b, sig, params, strict, ignore, mode, is_async, args, kw, req='none
         cps.append({'name': NID[p['name']], 'required': p['required'], 'dflt': p['dflt'], 'ext': p['ext'], 'conv': conv,
                     'vals': [{'rej': sorted(s['rej']), 'crash': sorted(s['crash']), 'map': s['map'], 'k': s['k']} for s in p['vals']],
                     'flaskJson': p['kind'] == 'flaskjson'})
+    csig = {'pos': ([{'name': 0, 'dflt': NOV}] if sig['method'] else []) + [{'name': NID[n], 'dflt': d} for n, d in sig['pos']],
+            'varArgs': sig['varArgs'], 'kwOnly': [{'name': NID[n], 'dflt': d} for n, d in sig['kwOnly']]}
+    if sig['varArgs'] and sig.get('varName', 'args') != 'args':
+        csig['varName'] = NID[sig['varName']]
+    if sig['varArgs'] and len(args) > len(sig['pos']):
+        csig['tup'] = b.obj()              # the tuple object that bind_partial builds from the surplus positionals
     c = {'ps': cps,
-         'sig': {'pos': ([{'name': 0, 'dflt': NOV}] if sig['method'] else []) + [{'name': NID[n], 'dflt': d} for n, d in sig['pos']],
-                 'varArgs': sig['varArgs'], 'kwOnly': [{'name': NID[n], 'dflt': d} for n, d in sig['kwOnly']]},
+         'sig': csig,
          'strict': strict, 'ignore': ignore, 'req': req, 'async': is_async, 'mode': mode,
          'args': ([SELF_ID] if sig['method'] else []) + list(args), 'kw': [[NID[n], v] for n, v in kw]}
     x = {'method': sig['method'], 'ps': [{'kind': p['kind'], 'vt': p['vt'], 'raw': p.get('raw')} for p in params],
@@ -221,12 +231,23 @@ def pick_value(rng, b, vt, allow_none=True):
     return b.lit(rng.choice(GOOD[vt]))
 
 
+SPECIAL_NAMES = ['args', 'args', 'kwargs', 'cls', 'self']      # ordinary parameters that merely carry a conventional name
+
+
 def gen_program(rng, b, allow_varargs, n=None):
     n = n or rng.choice([1, 2, 2, 3, 3, 4])
     names = ['a', 'b', 'c', 'd'][:n]
     method = rng.random() < 0.3
     is_async = rng.random() < 0.3
     varargs = allow_varargs and rng.random() < 0.3
+    var_name = rng.choice(['args', 'args', 'rest']) if varargs else 'args'
+    if rng.random() < 0.3:
+        # ordinary parameters called `args`, `kwargs`, `cls`, `self` (the latter never first: that would be a receiver)
+        for i in rng.sample(range(n), rng.choice([1, 1, 2]) if n > 1 else 1):
+            nm = rng.choice(SPECIAL_NAMES)
+            if nm in names or (nm == 'self' and (method or i == 0)) or (nm == 'args' and varargs and var_name == 'args'):
+                continue
+            names[i] = nm
     nkw = rng.choice([0, 0, 0, 1, 2]) if n > 1 else 0
     nkw = min(nkw, n - 1)
     pos_names, kwo_names = names[:n - nkw], names[n - nkw:]
@@ -240,10 +261,12 @@ def gen_program(rng, b, allow_varargs, n=None):
         seen = seen or rng.random() < 0.3
         pos.append((nm, dflt_val() if seen else NOV))
     kwo = [(nm, dflt_val() if rng.random() < 0.5 else NOV) for nm in kwo_names]
-    sig = {'method': method, 'pos': pos, 'varArgs': varargs, 'kwOnly': kwo}
+    sig = {'method': method, 'pos': pos, 'varArgs': varargs, 'kwOnly': kwo, 'varName': var_name}
     decl = [nm for nm in names if rng.random() < 0.87]
     if rng.random() < 0.05:
         decl.append('zz')
+    if varargs and var_name != 'args' and rng.random() < 0.3:
+        decl.append(var_name)            # a Parameter declared for the VAR_POSITIONAL parameter's own name
     if decl and rng.random() < 0.04:
         decl.append(rng.choice(decl))
     rng.shuffle(decl)
@@ -254,6 +277,8 @@ def gen_program(rng, b, allow_varargs, n=None):
             vt = rng.choice(ENV_TYPES)
         else:
             vt = None if rng.random() < 0.5 else rng.choice(TYPES)
+        if varargs and nm == var_name and var_name != 'args':
+            kind, vt = ('plain' if kind == 'env' else kind), None       # it receives the tuple: no conversion table for tuples
         r = rng.random()
         dflt = NOV if r < 0.6 else (None if r < 0.7 else (b.lit(rng.choice(list(FALSY))) if r < 0.8 else b.obj()))
         vals = []
@@ -293,7 +318,7 @@ def gen_call(rng, b, sig, params, allow_surplus=True):
     if allow_surplus and k > 0 and rng.random() < 0.05:
         nm = rng.choice(pos_names[:k])
         kw.append((nm, pick_value(rng, b, vt_of.get(nm))))
-    if allow_surplus and rng.random() < 0.03:
+    if allow_surplus and rng.random() < 0.03 and all(n != 'self' for n, _ in kw):
         kw.append(('self', b.obj()))                             # a keyword called `self` (see self_is_receiver)
     if args and rng.random() < 0.05:
         args[rng.randrange(len(args))] = rng.choice(args)        # the same object twice
@@ -354,9 +379,12 @@ def random_cases(rng, count, allow_varargs, calls_per_program=3, origin='random'
 # ---------------------------------------------------------------- running the real library
 
 def shape_of(case):
-    c, x = case['c'], case['x']
-    pos = c['sig']['pos'][1:] if x['method'] else c['sig']['pos']
-    return (x['method'], c['async'], c['sig']['varArgs'],
+    return shape_of_c(case['c'], case['x']['method'])
+
+
+def shape_of_c(c, method):
+    pos = c['sig']['pos'][1:] if method else c['sig']['pos']
+    return (method, c['async'], (NAMES[c['sig'].get('varName', 1)] if c['sig']['varArgs'] else None),
             tuple((NAMES[s['name']], s['dflt'] != NOV) for s in pos),
             tuple((NAMES[s['name']], s['dflt'] != NOV) for s in c['sig']['kwOnly']))
 
@@ -366,7 +394,7 @@ def shape_src(idx, shape):
     ps = ['self'] if method else []
     ps += [f"{n}=D['{n}']" if d else n for n, d in pos]
     if varargs:
-        ps.append('*args')
+        ps.append('*' + varargs)
     elif kwo:
         ps.append('*')
     ps += [f"{n}=D['{n}']" if d else n for n, d in kwo]
@@ -375,8 +403,8 @@ def shape_src(idx, shape):
     d = 'async def' if is_async else 'def'
     if method:
         return (f"def make_{idx}(D, REC, RET, deco):\n    class K:\n        def __str__(self):\n            return 'S'\n\n"
-                f"        @deco\n        {d} f({', '.join(ps)}):\n            REC.append(({rec}, {'args' if varargs else '()'}))\n            return RET\n    return K\n\n")
-    return (f"def make_{idx}(D, REC, RET, deco):\n    @deco\n    {d} f({', '.join(ps)}):\n        REC.append(({rec}, {'args' if varargs else '()'}))\n"
+                f"        @deco\n        {d} f({', '.join(ps)}):\n            REC.append(({rec}, {varargs or '()'}))\n            return RET\n    return K\n\n")
+    return (f"def make_{idx}(D, REC, RET, deco):\n    @deco\n    {d} f({', '.join(ps)}):\n        REC.append(({rec}, {varargs or '()'}))\n"
             f"        return RET\n    return f\n\n")
 
 
@@ -400,6 +428,12 @@ class Ctx:
         self.inst = None
         self.journal = []
         self.loads = []
+        self.tup = None       # (id, [ids of the surplus positionals]): the tuple object bind_partial builds for the current call
+        self.insts = []       # scenarios: the instances of the method-carrying classes
+        self.cur = None       # scenarios: index of the call that is running (innermost)
+        self.trig = {}        # scenarios: (call, parameter name, validator index, value id) -> [inner calls to make]
+        self.do_call = None
+        self.rec = None       # scenarios: where the body of the running call records
 
     def value(self, i):
         if i is None:
@@ -418,13 +452,35 @@ class Ctx:
             return v.i if self.reg.get(v.i) is v else -1
         if self.inst is not None and v is self.inst:
             return SELF_ID
+        for inst in self.insts:
+            if v is inst:
+                return SELF_ID
+        if type(v) is tuple and v and self.tup is not None and [self.ident(e) for e in v] == self.tup[1]:
+            return self.tup[0]
         try:
             return self.rl.get(repr(v), -2)
         except Exception:
             return -3
 
 
-def run_impl(cases):
+_LIB = []
+
+
+class RecSink:
+    """what the generated bodies append to: files the record under the call that is running (scenarios)"""
+
+    def __init__(self, ctx):
+        self.ctx = ctx
+
+    def append(self, item):
+        self.ctx.rec.append(item)
+
+
+def _lib():
+    """the classes that sit between the cases and the real library (built once per process)"""
+    if _LIB:
+        return _LIB[0]
+    from types import SimpleNamespace
     from pedantic.decorators.fn_deco_validate.fn_deco_validate import validate, ReturnAs
     from pedantic.decorators.fn_deco_validate.parameters import Parameter, ExternalParameter, EnvironmentVariableParameter
     from pedantic.decorators.fn_deco_validate.validators import Validator
@@ -433,15 +489,20 @@ def run_impl(cases):
     NOVAL = object()
 
     class RecV(Validator):
-        """journals what it receives, then maps / rejects / crashes as the case says"""
+        """journals what it receives, makes the inner calls a scenario asks for, then maps / rejects / crashes as the case says"""
         j = -1
 
         def __init__(self, ctx, pname, spec):
             self.ctx, self.pname, self.spec = ctx, pname, spec
 
         def validate(self, value):
-            i = self.ctx.ident(value)
-            self.ctx.journal.append([self.pname, self.j, i])
+            ctx = self.ctx
+            i = ctx.ident(value)
+            ctx.journal.append([self.pname, self.j, i])
+            if ctx.trig:
+                # re-entrancy: this validator calls decorated functions (the one it is validating for included) before it answers
+                for k in ctx.trig.pop((ctx.cur, self.pname, self.j, i), ()):
+                    ctx.do_call(k)
             r = step_apply(self.spec, i)
             if r[0] == 'rej':
                 self.raise_exception(value=value, msg='rejected by the recording validator')
@@ -449,7 +510,7 @@ def run_impl(cases):
                 raise CrashErr(i)
             if r[1] == i:
                 return value
-            return self.ctx.value(r[1])
+            return ctx.value(r[1])
     VCLS = [type(f'V{j}', (RecV,), {'j': j}) for j in range(4)]
 
     class HExt(ExternalParameter):
@@ -464,10 +525,180 @@ def run_impl(cases):
             self._ctx.loads.append(NID.get(self.name, -1))
             return self._src
 
+    def make_param(ctx, cp, xp, evar):
+        pname = NAMES[cp['name']]
+        kw = dict(name=pname, validators=[VCLS[j](ctx, cp['name'], st) for j, st in enumerate(cp['vals'])], required=cp['required'])
+        if cp['dflt'] != NOV:
+            kw['default'] = ctx.value(cp['dflt'])
+        if xp['kind'] == 'env':
+            if xp['raw'] is not None:
+                os.environ[evar] = xp['raw']
+            return EnvironmentVariableParameter(env_var_name=evar, value_type=PY_T[xp['vt']], **kw)
+        if xp['kind'] == 'ext':
+            return HExt(ctx, NOVAL if cp['ext'] == NOV else ctx.value(cp['ext']), value_type=PY_T[xp['vt']], **kw)
+        if xp['kind'] == 'plain':
+            return Parameter(value_type=PY_T[xp['vt']], **kw)
+        return make_flask_param(xp['kind'], PY_T[xp['vt']], kw)
+
+    def call_and_classify(ctx, c, fn, a, k, rec, flask=None):
+        """one call of a decorated function: canonical outcome + whether its return value was handed back"""
+        cm = flask_context(ctx, flask) if flask is not None else contextlib.nullcontext()
+        try:
+            with cm:
+                r = fn(*a, **k)
+                if c['async']:
+                    try:
+                        r.send(None)
+                        r.close()
+                        r = ('pending coroutine',)
+                    except StopIteration as si:
+                        r = si.value
+            o = ['ok'] if rec else ['notCalled']
+            ret_ok = r is RET
+        except ParameterException as e:
+            vn = e.validator_name
+            if isinstance(vn, str) and vn[:1] == 'V' and vn[1:].isdigit():
+                why = ['validator', int(vn[1:])]
+            else:
+                why = 'required' if e.value is None else 'convert'
+            o, ret_ok = ['VAL:Parameter', NID.get(e.parameter_name, -1), why], True
+        except TooManyArguments:
+            o, ret_ok = ['VAL:TooManyArguments'], True
+        except ValidateException:
+            o, ret_ok = ['VAL:Validate'], True
+        except CrashErr as e:
+            o, ret_ok = ['ESC:foreign', e.i], True
+        except TypeError:
+            o, ret_ok = ['CALL:TypeError'] if not rec else ['BODY:TypeError'], True
+        except RuntimeError:
+            o, ret_ok = ['ESC:RuntimeError'], True
+        except KeyError:
+            o, ret_ok = ['ESC:KeyError'], True
+        except BaseException as e:
+            o, ret_ok = ['ESC:' + type(e).__name__], True
+        return o, ret_ok
+
+    def observed(ctx, o, ret_ok, rec):
+        binding = None
+        if rec:
+            d, extra = rec[0]
+            binding = {'named': sorted([NID[n], ctx.ident(v)] for n, v in d.items()), 'extras': [ctx.ident(v) for v in extra]}
+        return {'out': o, 'binding': binding, 'journal': ctx.journal, 'loads': ctx.loads, 'ret_ok': ret_ok, 'ncalls': len(rec)}
+
+    _LIB.append(SimpleNamespace(validate=validate, ReturnAs=ReturnAs, make_param=make_param, call_and_classify=call_and_classify,
+                                observed=observed))
+    return _LIB[0]
+
+
+def case_calls(case):
+    """(c, method) of every call of a case"""
+    if 'calls' in case['c']:
+        fns = case['x']['scn']['fns']
+        return [(c, fns[m['fn']]['method']) for c, m in zip(case['c']['calls'], case['x']['scn']['calls'])]
+    return [(case['c'], case['x']['method'])]
+
+
+def clear_env():
+    for k in [k for k in os.environ if k.startswith('PEDV_')]:
+        del os.environ[k]
+
+
+def run_single(L, mod, shapes, case):
+    c, x = case['c'], case['x']
+    ctx = Ctx(x['lits'])
+    clear_env()
+    params = [L.make_param(ctx, cp, xp, f"PEDV_{n_decl}_{NAMES[cp['name']]}") for n_decl, (cp, xp) in enumerate(zip(c['ps'], x['ps']))]
+    rec = []
+    sig = c['sig']
+    D = {NAMES[s['name']]: ctx.value(s['dflt']) for s in sig['pos'] + sig['kwOnly'] if s['dflt'] != NOV}
+    deco = L.validate(*params, return_as=L.ReturnAs[c['mode']], strict=c['strict'], ignore_input=c['ignore'])
+    made = getattr(mod, f'make_{shapes[shape_of(case)]}')(D, rec, RET, deco)
+    args = c['args']
+    if x['method']:
+        ctx.inst = made()
+        ctx.reg[SELF_ID] = ctx.inst
+        fn = ctx.inst.f
+        args = args[1:]
+    else:
+        fn = made
+    a = [ctx.value(i) for i in args]
+    k = {NAMES[n]: ctx.value(v) for n, v in c['kw']}
+    if 'tup' in sig:
+        ctx.tup = (sig['tup'], list(args[len(sig['pos']) - (1 if x['method'] else 0):]))
+    o, ret_ok = L.call_and_classify(ctx, c, fn, a, k, rec, x.get('flask'))
+    return L.observed(ctx, o, ret_ok, rec)
+
+
+def run_scenario(L, mod, shapes, case):
+    """one or two decorated function objects built ONCE (sharing Parameter objects), then the history of calls; a validator
+    makes the inner calls while the call it validates for is still running.  Result: one observation per call (None for an
+    inner call whose trigger never fired)."""
+    x, calls_c = case['x'], case['c']['calls']
+    scn = x['scn']
+    ctx = Ctx(x['lits'])
+    clear_env()
+    first_call = {}
+    for ci, m in enumerate(scn['calls']):
+        first_call.setdefault(m['fn'], ci)
+    # the Parameter objects (each built once, from the first call that shows it)
+    pool = {}
+    for fi, f in enumerate(scn['fns']):
+        if fi not in first_call:
+            continue                      # a function object no call of the history uses
+        c0 = calls_c[first_call[fi]]
+        for cp, pi in zip(c0['ps'], f['ps']):
+            if pi not in pool:
+                pool[pi] = L.make_param(ctx, cp, scn['pool'][pi], f"PEDV_{pi}_{NAMES[cp['name']]}")
+    sink = RecSink(ctx)
+    fns = []
+    for fi, f in enumerate(scn['fns']):
+        if fi not in first_call:
+            fns.append(None)
+            continue
+        c0 = calls_c[first_call[fi]]
+        sig = c0['sig']
+        D = {NAMES[s['name']]: ctx.value(s['dflt']) for s in sig['pos'] + sig['kwOnly'] if s['dflt'] != NOV}
+        deco = L.validate(*[pool[pi] for pi in f['ps']], return_as=L.ReturnAs[c0['mode']], strict=c0['strict'], ignore_input=c0['ignore'])
+        made = getattr(mod, f'make_{shapes[shape_of_c(c0, f["method"])]}')(D, sink, RET, deco)
+        if f['method']:
+            inst = made()
+            ctx.insts.append(inst)
+            fns.append(inst.f)
+        else:
+            fns.append(made)
+    results = [None] * len(calls_c)
+    for ci, m in enumerate(scn['calls']):
+        if m['parent'] is not None:
+            ctx.trig.setdefault((m['parent'], m['trig'][0], m['trig'][1], m['trig'][2]), []).append(ci)
+
+    def do_call(ci):
+        c, m = calls_c[ci], scn['calls'][ci]
+        method = scn['fns'][m['fn']]['method']
+        args = c['args'][1:] if method else c['args']
+        a = [ctx.value(i) for i in args]
+        k = {NAMES[n]: ctx.value(v) for n, v in c['kw']}
+        saved = (ctx.journal, ctx.loads, ctx.tup, ctx.cur, ctx.rec)
+        ctx.journal, ctx.loads, ctx.cur, ctx.rec = [], [], ci, []
+        ctx.tup = (c['sig']['tup'], list(args[len(c['sig']['pos']) - (1 if method else 0):])) if 'tup' in c['sig'] else None
+        try:
+            o, ret_ok = L.call_and_classify(ctx, c, fns[m['fn']], a, k, ctx.rec)
+            results[ci] = L.observed(ctx, o, ret_ok, ctx.rec)
+        finally:
+            ctx.journal, ctx.loads, ctx.tup, ctx.cur, ctx.rec = saved
+    ctx.do_call = do_call
+    for ci, m in enumerate(scn['calls']):
+        if m['parent'] is None:
+            do_call(ci)
+    return {'calls': results}
+
+
+def run_impl(cases):
+    L = _lib()
     # the generated programs: one factory per signature shape, in a real module file
     shapes = {}
     for case in cases:
-        shapes.setdefault(shape_of(case), len(shapes))
+        for c, method in case_calls(case):
+            shapes.setdefault(shape_of_c(c, method), len(shapes))
     tmp = tempfile.mkdtemp(prefix='pedverif_validate_')
     out = []
     saved_env = {k: v for k, v in os.environ.items() if k.startswith('PEDV_')}
@@ -480,92 +711,18 @@ def run_impl(cases):
         spec = importlib.util.spec_from_file_location('pedverif_validate_programs', path)
         mod = importlib.util.module_from_spec(spec)
         spec.loader.exec_module(mod)
-        flask_app = None
         sink = io.StringIO()
         with contextlib.redirect_stdout(sink):
             for n_case, case in enumerate(cases):
                 if n_case % 2000 == 0:
                     sink.seek(0)
                     sink.truncate()
-                c, x = case['c'], case['x']
-                ctx = Ctx(x['lits'])
-                for k in [k for k in os.environ if k.startswith('PEDV_')]:
-                    del os.environ[k]
-                params = []
-                for n_decl, (cp, xp) in enumerate(zip(c['ps'], x['ps'])):
-                    pname = NAMES[cp['name']]
-                    evar = f'PEDV_{n_decl}_{pname}'
-                    kw = dict(name=pname, validators=[VCLS[j](ctx, cp['name'], st) for j, st in enumerate(cp['vals'])], required=cp['required'])
-                    if cp['dflt'] != NOV:
-                        kw['default'] = ctx.value(cp['dflt'])
-                    if xp['kind'] == 'env':
-                        if xp['raw'] is not None:
-                            os.environ[evar] = xp['raw']
-                        params.append(EnvironmentVariableParameter(env_var_name=evar, value_type=PY_T[xp['vt']], **kw))
-                    elif xp['kind'] == 'ext':
-                        params.append(HExt(ctx, NOVAL if cp['ext'] == NOV else ctx.value(cp['ext']), value_type=PY_T[xp['vt']], **kw))
-                    elif xp['kind'] == 'plain':
-                        params.append(Parameter(value_type=PY_T[xp['vt']], **kw))
-                    else:
-                        params.append(make_flask_param(xp['kind'], PY_T[xp['vt']], kw))
-                rec = []
-                sig = c['sig']
-                D = {NAMES[s['name']]: ctx.value(s['dflt']) for s in sig['pos'] + sig['kwOnly'] if s['dflt'] != NOV}
-                deco = validate(*params, return_as=ReturnAs[c['mode']], strict=c['strict'], ignore_input=c['ignore'])
-                made = getattr(mod, f'make_{shapes[shape_of(case)]}')(D, rec, RET, deco)
-                args = c['args']
-                if x['method']:
-                    ctx.inst = made()
-                    ctx.reg[SELF_ID] = ctx.inst
-                    fn = ctx.inst.f
-                    args = args[1:]
+                if 'calls' in case['c']:
+                    out.append(run_scenario(L, mod, shapes, case))
                 else:
-                    fn = made
-                a = [ctx.value(i) for i in args]
-                k = {NAMES[n]: ctx.value(v) for n, v in c['kw']}
-                res = None
-                cm = flask_context(ctx, x['flask']) if x.get('flask') is not None else contextlib.nullcontext()
-                try:
-                    with cm:
-                        r = fn(*a, **k)
-                        if c['async']:
-                            try:
-                                r.send(None)
-                                r.close()
-                                r = ('pending coroutine',)
-                            except StopIteration as si:
-                                r = si.value
-                    o = ['ok'] if rec else ['notCalled']
-                    ret_ok = r is RET
-                except ParameterException as e:
-                    vn = e.validator_name
-                    if isinstance(vn, str) and vn[:1] == 'V' and vn[1:].isdigit():
-                        why = ['validator', int(vn[1:])]
-                    else:
-                        why = 'required' if e.value is None else 'convert'
-                    o, ret_ok = ['VAL:Parameter', NID.get(e.parameter_name, -1), why], True
-                except TooManyArguments:
-                    o, ret_ok = ['VAL:TooManyArguments'], True
-                except ValidateException:
-                    o, ret_ok = ['VAL:Validate'], True
-                except CrashErr as e:
-                    o, ret_ok = ['ESC:foreign', e.i], True
-                except TypeError:
-                    o, ret_ok = ['CALL:TypeError'] if not rec else ['BODY:TypeError'], True
-                except RuntimeError:
-                    o, ret_ok = ['ESC:RuntimeError'], True
-                except KeyError:
-                    o, ret_ok = ['ESC:KeyError'], True
-                except BaseException as e:
-                    o, ret_ok = ['ESC:' + type(e).__name__], True
-                binding = None
-                if rec:
-                    d, extra = rec[0]
-                    binding = {'named': sorted([NID[n], ctx.ident(v)] for n, v in d.items()), 'extras': [ctx.ident(v) for v in extra]}
-                out.append({'out': o, 'binding': binding, 'journal': ctx.journal, 'loads': ctx.loads, 'ret_ok': ret_ok, 'ncalls': len(rec)})
+                    out.append(run_single(L, mod, shapes, case))
     finally:
-        for k in [k for k in os.environ if k.startswith('PEDV_')]:
-            del os.environ[k]
+        clear_env()
         os.environ.update(saved_env)
         shutil.rmtree(tmp, ignore_errors=True)
         sys.modules.pop('pedverif_validate_programs', None)
@@ -806,7 +963,7 @@ def pfail_gate(case, impl, model):
                     return f'the body saw {v} for {NAMES[n]}; the chain output / default is {want}'
                 if n in declared:
                     # region of the finding `selfKeywordBypassesGate`: a keyword `self` on a plain function is handed over positionally
-                    return ('FINDING', f'the body saw {v} for the declared parameter {NAMES[n]} (chain output / default: {want}): '
+                    return ('FINDING:selfKeywordBypassesGate', f'the body saw {v} for the declared parameter {NAMES[n]} (chain output / default: {want}): '
                                        f'the value of the surplus keyword `self` was handed over positionally')
         if not receiver_ok:
             for n, v in impl['binding']['named']:
@@ -828,9 +985,15 @@ def pfail_gate(case, impl, model):
         for n, v in impl['binding']['named']:
             if v not in allowed and n != 0:
                 return f'the body saw {v} for {NAMES[n]}, which is no chain output, default or undeclared pass-through'
+        var_name = c['sig'].get('varName', 1)
         for v in impl['binding']['extras']:
             if v not in allowed:
-                return f'the body saw {v} in *args, which is no chain output, default or undeclared pass-through'
+                what = f'the body saw {v} in *{NAMES[var_name]}, which is no chain output, default or undeclared pass-through'
+                if var_name != 1:
+                    # region of the finding `varPositionalNotNamedArgs`: the positional loop only recognises the spelling `*args`;
+                    # the tuple of surplus positionals is handled like one ordinary argument called `rest`
+                    return ('FINDING:varPositionalNotNamedArgs', what + (f' (it is the tuple of the surplus positionals)' if v == c['sig'].get('tup') else ''))
+                return what
     return None
 
 
@@ -844,6 +1007,29 @@ def self_keyword_edge(case, impl, model):
 
 
 def extra_coverage(results):
+    flat, scn = [], {'scenarios': 0, 'calls_executed': 0, 'inner_calls_executed': 0, 'scenarios_with_two_function_objects': 0,
+                     'max_nesting_depth': 0, 'calls_on_a_function_object_that_was_called_before': 0}
+    for (c, i, m, j) in results:
+        if 'calls' in c['c']:
+            subs = sub_results(c, i, m)
+            scn['scenarios'] += 1
+            scn['calls_executed'] += len(subs)
+            scn['inner_calls_executed'] += sum(1 for sub, _, _ in subs if sub['x']['inner'])
+            scn['scenarios_with_two_function_objects'] += len(c['x']['scn']['fns']) > 1
+            meta = c['x']['scn']['calls']
+            seen = set()
+            for sub, _, _ in subs:
+                d, k = 0, sub['x']['call']
+                while meta[k]['parent'] is not None:
+                    d, k = d + 1, meta[k]['parent']
+                scn['max_nesting_depth'] = max(scn['max_nesting_depth'], d)
+                fn = meta[sub['x']['call']]['fn']
+                scn['calls_on_a_function_object_that_was_called_before'] += fn in seen
+                seen.add(fn)
+            flat += [(sub, si, sm, j) for sub, si, sm in subs]
+        else:
+            flat.append((c, i, m, j))
+    results = flat
     n = sum(1 for (c, i, m, j) in results if self_keyword_edge(c, i, m))
     branches = {}
     feat = {}
@@ -866,7 +1052,10 @@ def extra_coverage(results):
             if any(k not in declared for k, _ in cc['kw']):
                 hit('kw loop: undeclared name (strict)' if cc['strict'] else 'kw loop: undeclared name (passes)')
             if cc['sig']['varArgs'] and len(cc['args']) > npos:
-                hit('positional loop: *args zip branch')
+                hit('positional loop: *args zip branch' if cc['sig'].get('varName', 1) == 1 else 'positional loop: tuple of a VAR_POSITIONAL parameter not spelled *args')
+            for s_ in cc['sig']['pos'][(1 if c['x']['method'] else 0):] + cc['sig']['kwOnly']:
+                if s_['name'] in (0, 1, 8, 9):
+                    hit('ordinary parameter named ' + NAMES[s_['name']])
             if not cc['sig']['varArgs'] and len(cc['args']) > npos:
                 hit('positional loop: bind_partial TypeError')
             if any(s['name'] not in declared and s['name'] != 0 for s in cc['sig']['pos'][:len(cc['args'])]):
@@ -881,7 +1070,7 @@ def extra_coverage(results):
                 hit('body saw None')
         if cc['req'] != 'none':
             hit('flask request context: ' + ('json' if isinstance(cc['req'], list) else 'not json'))
-    return {'cases_by_generator': branches, 'features_hit': dict(sorted(feat.items())),
+    return {'cases_by_generator': branches, 'features_hit': dict(sorted(feat.items())), 'scenarios': scn,
             'report_only_edge_self_keyword_on_plain_function': {'cases_where_body_saw_non_by_name_binding': n,
                                                                 'note': 'impl == model there; excluded from the theorem by the hypothesis SelfIsReceiver'}}
 
@@ -911,7 +1100,7 @@ def byname_matrix(rng, n, omissions=True, full_flags=True, stride=1):
     """C13's matrix for n named parameters: all declaration orders x all call shapes x 3 modes x strict x all source
     patterns {plain, external with value, external without value}^n; the remaining dimensions (method, async, number of
     defaulted / keyword-only parameters, required, Parameter default, a None / falsy value) cycle with a counter."""
-    names = ['a', 'b', 'c', 'd'][:n]
+    base_names = ['a', 'b', 'c', 'd'][:n]
     out = []
     ctr = rng.randrange(10007)
     shapes = call_shapes(n, [], omissions)
@@ -929,6 +1118,19 @@ def byname_matrix(rng, n, omissions=True, full_flags=True, stride=1):
                         method = bool((z // 2) % 2)
                         is_async = (z // 4) % 3 == 0
                         ndef = (z // 12) % (n + 1)
+                        # ordinary parameters that merely carry a conventional name (`args`, `kwargs`, `cls`) cycle too
+                        names = list(base_names)
+                        nv = (z // 5) % 7
+                        if nv == 1:
+                            names[0] = 'args'
+                        elif nv == 2:
+                            names[n - 1] = 'args'
+                        elif nv == 3:
+                            names[n // 2] = 'args'
+                            names[(n // 2 + 1) % n] = 'kwargs' if n > 1 else names[0]
+                        elif nv == 4:
+                            names[0] = 'cls'
+                            names[n - 1] = 'kwargs' if n > 1 else names[0]
                         b = Builder()
                         pos = [(nm, (b.obj() if i >= n - ndef else NOV)) for i, nm in enumerate(names)]
                         sig = {'method': method, 'pos': pos, 'varArgs': False, 'kwOnly': []}
@@ -1005,6 +1207,9 @@ def gate_enum(rng):
                                     ctr += 1
                                     b = Builder()
                                     varargs = style == 'zip'
+                                    names = [['a', 'b'], ['args', 'b'], ['a', 'args'], ['kwargs', 'cls'], ['a', 'b']][(ctr // 3) % 5][:n]
+                                    if varargs and ctr % 2:
+                                        names = ['a', 'b'][:n]
                                     sig = {'method': ctr % 3 == 0, 'pos': [] if varargs else [(nm, NOV) for nm in names], 'varArgs': varargs, 'kwOnly': []}
                                     vals_in = []
                                     for i in range(n):
@@ -1069,3 +1274,224 @@ def surplus_enum(rng):
                             params.reverse()
                         out.append(assemble(b, sig, params, strict, False, mode, is_async, args, kw, origin='surplus'))
     return out
+
+
+def varpos_enum(rng):
+    """VAR_POSITIONAL parameter spelled `*args` / `*rest` x a Parameter declared for that very name or not x an unused Parameter
+    outside the signature (required / defaulted / none) x 0..2 surplus positionals x strict x mode x method x async"""
+    out = []
+    ctr = rng.randrange(1000)
+    for var_name in ('args', 'rest'):
+        for own in (False, True):
+            for spare in ('none', 'required', 'defaulted'):
+                for nsur in (0, 1, 2):
+                    for strict in (True, False):
+                        for mode in MODES:
+                            for method in (False, True):
+                                ctr += 1
+                                b = Builder()
+                                first = ['a', 'kwargs', 'cls'][ctr % 3]
+                                sig = {'method': method, 'pos': [(first, NOV)], 'varArgs': True, 'kwOnly': [], 'varName': var_name}
+                                mk = lambda nm, **kw: dict({'name': nm, 'kind': 'plain', 'required': True, 'dflt': NOV, 'ext': NOV, 'vt': None,
+                                                            'vals': [{'rej': set(), 'crash': set(), 'map': 'mul', 'k': 1}], 'raw': None}, **kw)
+                                params = [mk(first)]
+                                if own:
+                                    params.append(mk(var_name, required=bool(ctr % 2)))
+                                if spare == 'required':
+                                    params.append(mk('zz'))
+                                elif spare == 'defaulted':
+                                    params.append(mk('zz', required=False, dflt=b.obj()))
+                                if ctr % 4 == 3:
+                                    params.reverse()
+                                args = [b.obj() for _ in range(1 + nsur)]
+                                out.append(assemble(b, sig, params, strict, False, mode, ctr % 5 == 0, args, [], origin='varpos'))
+    return out
+
+
+# ---------------------------------------------------------------- scenarios: histories of calls, re-entrant validators
+
+def invocation_points(b, sig, params, args, kw):
+    """validator invocations a call can lead to: [(parameter name, validator index, value id received)] (generator-side
+    bookkeeping, used to hang an inner call on an invocation that really happens when nothing fails before it)"""
+    pos_names = [n for n, _ in sig['pos']]
+    arriving = {}
+    for nm, v in list(zip(pos_names, args)) + list(kw):
+        arriving.setdefault(nm, []).append(v)
+    extra = args[len(pos_names):]
+    out = []
+    for p in params:
+        ins = list(arriving.get(p['name'], []))
+        if p['ext'] not in (NOV, None):
+            ins.append(p['ext'])
+        if sig['varArgs'] and sig.get('varName', 'args') == 'args':
+            ins += extra
+        for v in ins:
+            for j, i in chain_inputs(b, p, v).items():
+                if j >= 0 and (p['name'], j, i) not in out:
+                    out.append((p['name'], j, i))
+    return out
+
+
+def assemble_scenario(b, pool, fns, calls, origin):
+    """pool: the Parameter descriptions (shared objects); fns: [{'sig', 'ps': [pool idx], 'strict', 'ignore', 'mode', 'async'}];
+    calls: [{'fn', 'args', 'kw', 'parent': None | index, 'trig': None | (name, j, value id)}] in start order"""
+    cs = []
+    for cl in calls:
+        f = fns[cl['fn']]
+        one = assemble(b, f['sig'], [pool[i] for i in f['ps']], f['strict'], f['ignore'], f['mode'], f['async'], cl['args'], cl['kw'])
+        cs.append(one['c'])
+    x = {'method': fns[calls[0]['fn']]['sig']['method'], 'lits': {str(i): r for i, r in b.lits.items()}, 'origin': origin, 'history': True,
+         'scn': {'pool': [{'kind': p['kind'], 'vt': p['vt'], 'raw': p.get('raw')} for p in pool],
+                 'fns': [{'method': f['sig']['method'], 'ps': list(f['ps'])} for f in fns],
+                 'calls': [{'fn': cl['fn'], 'parent': cl['parent'],
+                            'trig': None if cl['trig'] is None else [NID[cl['trig'][0]], cl['trig'][1], cl['trig'][2]]} for cl in calls]}}
+    return {'m': 'validate', 'c': {'calls': cs}, 'x': x}
+
+
+def second_function(rng, b, prog):
+    """another decorated function over the same names that shares Parameter objects with the first one"""
+    sig, params, strict, ignore, mode, is_async = prog
+    pos = []
+    seen = False
+    for nm, _ in sig['pos']:
+        seen = seen or rng.random() < 0.3
+        pos.append((nm, (None if rng.random() < 0.2 else b.obj()) if seen else NOV))
+    sig2 = dict(sig, pos=pos, method=(rng.random() < 0.3) and all(n != 'self' for n, _ in pos + sig['kwOnly']),
+                kwOnly=[(nm, (b.obj() if rng.random() < 0.5 else NOV)) for nm, _ in sig['kwOnly']])
+    idx = list(range(len(params)))
+    rng.shuffle(idx)
+    if len(idx) > 1 and rng.random() < 0.3:
+        idx = idx[:-1]
+    return {'sig': sig2, 'ps': idx, 'strict': rng.random() < 0.6, 'ignore': rng.random() < 0.05, 'mode': rng.choice(MODES),
+            'async': rng.random() < 0.3}
+
+
+def scenario_cases(rng, count, allow_varargs, origin='scenario'):
+    """seeded histories: 2-4 top-level calls on one decorated function object (sometimes a second one that shares its Parameter
+    objects), validators that re-enter (the same function mostly) with other arguments, nesting depth up to 3"""
+    out = []
+    while len(out) < count:
+        b = Builder()
+        prog = gen_program(rng, b, allow_varargs)
+        sig, params, strict, ignore, mode, is_async = prog
+        if not params:
+            continue
+        for p in params:
+            if not p['vals'] and rng.random() < 0.7:
+                p['vals'].append({'rej': set(), 'crash': set(), 'map': 'mul', 'k': 1})
+        fns = [{'sig': sig, 'ps': list(range(len(params))), 'strict': strict, 'ignore': ignore and rng.random() < 0.3, 'mode': mode, 'async': is_async}]
+        if rng.random() < 0.35:
+            fns.append(second_function(rng, b, prog))
+        calls = []
+
+        def add_call(parent, trig, depth, fn=None):
+            if fn is None:
+                fn = 0 if (len(fns) == 1 or rng.random() < 0.7) else 1
+            f = fns[fn]
+            ps = [params[i] for i in f['ps']]
+            args, kw = gen_call(rng, b, f['sig'], ps, allow_surplus=rng.random() < 0.3)
+            me = len(calls)
+            calls.append({'fn': fn, 'args': args, 'kw': kw, 'parent': parent, 'trig': trig})
+            if depth < 3 and rng.random() < (0.65 if depth == 0 else 0.3) and not f['ignore']:
+                pts = invocation_points(b, f['sig'], ps, args, kw)
+                if pts:
+                    for t in rng.sample(pts, min(len(pts), rng.choice([1, 1, 2]))):
+                        # the validator re-enters: mostly the very function it is validating for
+                        add_call(me, t, depth + 1, fn=(fn if rng.random() < 0.75 or len(fns) == 1 else 1 - fn))
+        for _ in range(rng.choice([2, 2, 3, 4])):
+            add_call(None, None, 0)
+        r = rng.random()
+        if r < 0.35:
+            cl = rng.choice(calls)
+            f = fns[cl['fn']]
+            place_rejection(rng, b, f['sig'], [params[i] for i in f['ps']], cl['args'], cl['kw'], 'rej' if r < 0.3 else 'crash')
+        out.append(assemble_scenario(b, params, fns, calls, origin))
+    return out
+
+
+def reentrant_enum(rng):
+    """directed: def f(x, y=<default>) with Parameters x (chain of 2) and y; the outer call and the call a validator of x makes
+    while the outer call is still running differ in whether they supply y - every combination of who omits what x required /
+    Parameter default x which validator re-enters x same function or a second one sharing the Parameter objects x call styles x
+    mode x strict x sync/async x method; then the outer call is repeated sequentially on the same function object"""
+    out = []
+    ctr = rng.randrange(1000)
+    for kind in ('outer_omits', 'inner_omits', 'both_omit', 'none_omits', 'outer_rejects_later', 'inner_rejects'):
+        for y_required in (True, False):
+            for trig_j in (0, 1):
+                for two in (False, True):
+                    for outer_style in ('kw', 'pos'):
+                        for inner_style in ('kw', 'pos', 'kwrev'):
+                            for mode in MODES:
+                                for strict in (True, False):
+                                    ctr += 1
+                                    b = Builder()
+                                    xn, yn = [('a', 'b'), ('args', 'b'), ('a', 'kwargs'), ('cls', 'args')][(ctr // 2) % 4] if ctr % 3 == 0 else ('a', 'b')
+                                    method, is_async = (ctr // 3) % 3 == 0, (ctr // 5) % 3 == 0
+                                    sig = {'method': method, 'pos': [(xn, NOV), (yn, b.obj())], 'varArgs': False, 'kwOnly': []}
+                                    mk = lambda nm, **kw: dict({'name': nm, 'kind': 'plain', 'required': True, 'dflt': NOV, 'ext': NOV, 'vt': None,
+                                                                'vals': [{'rej': set(), 'crash': set(), 'map': 'mul', 'k': j + 1} for j in range(2)],
+                                                                'raw': None}, **kw)
+                                    pool = [mk(xn), mk(yn, required=y_required, dflt=(NOV if y_required or ctr % 2 else b.obj()))]
+                                    fns = [{'sig': sig, 'ps': [0, 1] if ctr % 4 else [1, 0], 'strict': strict, 'ignore': False, 'mode': mode, 'async': is_async}]
+                                    if two:
+                                        fns.append({'sig': dict(sig, pos=[(xn, NOV), (yn, b.obj())], method=not method), 'ps': [1, 0] if ctr % 4 else [0, 1],
+                                                    'strict': not strict, 'ignore': False, 'mode': MODES[(MODES.index(mode) + 1) % 3], 'async': not is_async})
+                                    xo, yo, xi, yi = b.obj(), b.obj(), b.obj(), b.obj()
+
+                                    def shape(style, xv, yv, omit):
+                                        if style == 'pos':
+                                            return ([xv] if omit else [xv, yv]), []
+                                        kw = [(xn, xv)] + ([] if omit else [(yn, yv)])
+                                        return [], (list(reversed(kw)) if style == 'kwrev' else kw)
+                                    oa, ok = shape(outer_style, xo, yo, kind in ('outer_omits', 'both_omit'))
+                                    ia, ik = shape(inner_style, xi, yi, kind in ('inner_omits', 'both_omit'))
+                                    x_in = chain_inputs(b, pool[0], xo)
+                                    calls = [{'fn': 0, 'args': oa, 'kw': ok, 'parent': None, 'trig': None},
+                                             {'fn': 1 if two else 0, 'args': ia, 'kw': ik, 'parent': 0, 'trig': (xn, trig_j, x_in[trig_j])},
+                                             {'fn': 0, 'args': list(oa), 'kw': list(ok), 'parent': None, 'trig': None}]
+                                    if kind == 'outer_rejects_later' and trig_j == 0:
+                                        pool[0]['vals'][1]['rej'].add(x_in[1])
+                                    elif kind == 'outer_rejects_later':
+                                        pool[1]['vals'][0]['rej'].add(yo)
+                                    elif kind == 'inner_rejects':
+                                        pool[0]['vals'][1]['rej'].add(chain_inputs(b, pool[0], xi)[1])
+                                    out.append(assemble_scenario(b, pool, fns, calls, 'reentrant_enum'))
+    return out
+
+
+def sub_results(case, impl, model):
+    """(call as a single case, its observation, the model's answer) for every call of a scenario that was executed"""
+    scn = case['x']['scn']
+    out = []
+    for ci, (c, m) in enumerate(zip(case['c']['calls'], scn['calls'])):
+        i = impl['calls'][ci]
+        if i is None:
+            continue
+        f = scn['fns'][m['fn']]
+        sub = {'m': 'validate', 'c': c, 'x': {'method': f['method'], 'ps': [scn['pool'][pi] for pi in f['ps']], 'lits': case['x']['lits'],
+                                              'origin': case['x'].get('origin', 'scenario'), 'call': ci, 'inner': m['parent'] is not None}}
+        out.append((sub, i, model['calls'][ci]))
+    return out
+
+
+def judge_scenario(case, impl, model, judge_one):
+    """every executed call is judged like a single call (same correspondence, same property predicate); the first failing call
+    gives the verdict of the scenario"""
+    subs = sub_results(case, impl, model)
+    js = [(sub, judge_one(sub, i, m)) for sub, i, m in subs]
+    bad_corr = [(sub, j) for sub, j in js if not j['corr']]
+    bad = [(sub, j) for sub, j in js if j['pfail'] and not j['finding']] or [(sub, j) for sub, j in js if j['pfail']]
+    n_top = sum(1 for m in case['x']['scn']['calls'] if m['parent'] is None)
+    n_inner_run = sum(1 for sub, _ in js if sub['x']['inner'])
+    res = {'corr': not bad_corr, 'why': '', 'pfail': None, 'finding': None, 'nontrivial': any(j['nontrivial'] for _, j in js),
+           'tag': 'scn:' + (js[0][1]['tag'] if js else '-') + f'/{n_top}top/{n_inner_run}inner'}
+    if bad_corr:
+        sub, j = bad_corr[0]
+        res['why'] = f"call {sub['x']['call']} of the scenario: {j['why']}"
+    if bad:
+        sub, j = bad[0]
+        who = 'inner call' if sub['x']['inner'] else 'call'
+        res['pfail'] = f"{who} {sub['x']['call']} of the scenario ({len(js)} calls executed): {j['pfail']}"
+        res['finding'] = j['finding']
+    return res
